@@ -100,9 +100,20 @@ def utils : IO Unit := do
       let m := match partitionBySum sizes parts with | .ok l => natsS l | .error _ => "err"
       IO.println s!"partitionBySum {natsS sizes} {parts} | {g} | {m}"
 
+def optS (l : List (Option Rat)) : String := ",".intercalate (l.map fun o => match o with | some v => ratS v | none => "nan")
+
+def utils2 : IO Unit := do
+  let pools : List (List (Option Rat)) := [[some 0, some 2, none, some 4], [some 1, some 2, some (1/10000000), some 4], [none], [some 5],
+    [some 0, some 0], [some (3/10000000), some (1/2), some 2], [some 1, some 1, some 1], [some 8, some 2, some 4, some 2]]
+  for v in pools do
+    for tol in [v2wTol, 1/1000000, 1/4, 3] do
+      let g := Gen.varianceToWeightsComp v tol
+      let m := varianceToWeights v tol
+      IO.println s!"v2w {optS v} {ratS tol} | {",".intercalate (g.map ratS)} | {",".intercalate (m.map ratS)}"
+
 def main (args : List String) : IO Unit :=
   match args with
   | ["kernels"] => do kernels; trend
   | ["coords"] => do coords; coords2
-  | ["utils"] => utils
+  | ["utils"] => do utils; utils2
   | _ => IO.println "usage: GenEval kernels|coords"
